@@ -230,6 +230,9 @@ type PatOpts struct {
 	PropVar bool
 	// NoVars produces ground patterns.
 	NoVars bool
+	// Optional allows optional fields ({"k": "??o"}: matches whether or
+	// not k is there, and binds ??o if it is).
+	Optional bool
 	// VarPool overrides Vars.
 	VarPool []string
 }
@@ -285,6 +288,17 @@ func deriveValue(t *rapid.T, po PatOpts, d interface{}, label string, top bool) 
 				continue
 			}
 			p[k] = deriveValue(t, po, v[k], label+"."+k, false)
+		}
+		// Occasionally an optional field: for a key that is there, or
+		// for one that may not be.
+		if po.Optional && !po.NoVars && rapid.IntRange(0, 5).Draw(t, label+".optional?") == 0 {
+			var k string
+			if len(keys) > 0 && rapid.Bool().Draw(t, label+".optional.present") {
+				k = rapid.SampledFrom(keys).Draw(t, label+".optional.key")
+			} else {
+				k = Key(t, po.Opts, label+".optional.newkey")
+			}
+			p[k] = rapid.SampledFrom([]string{"??o", "??p"}).Draw(t, label+".optional.var")
 		}
 		// Occasionally demand a key that may not be there.
 		if rapid.IntRange(0, 9).Draw(t, label+".extra?") == 0 {
@@ -358,6 +372,10 @@ func patMap(t *rapid.T, po PatOpts, depth int, label string) M {
 	m := M{}
 	for i := 0; i < n; i++ {
 		k := Key(t, po.Opts, fmt.Sprintf("%s.k%d", label, i))
+		if po.Optional && !po.NoVars && rapid.IntRange(0, 5).Draw(t, fmt.Sprintf("%s.k%d.optional?", label, i)) == 0 {
+			m[k] = rapid.SampledFrom([]string{"??o", "??p"}).Draw(t, fmt.Sprintf("%s.k%d.optional", label, i))
+			continue
+		}
 		m[k] = patValue(t, po, depth, label+"."+k)
 	}
 	if po.NoEmpty && len(m) == 0 {
@@ -422,6 +440,9 @@ func instValue(t *rapid.T, o Opts, p interface{}, env map[string]interface{}, la
 			dk := k
 			if strings.HasPrefix(k, "?") {
 				dk = Key(t, o, label+".pvk")
+			}
+			if s, ok := v[k].(string); ok && strings.HasPrefix(s, "??") && rapid.Bool().Draw(t, label+"."+k+".absent") {
+				continue // an optional field: often not there
 			}
 			d[dk] = instValue(t, o, v[k], env, label+"."+k)
 		}
